@@ -8,7 +8,7 @@ Run-time contract:
   * launch id: explicit id used verbatim; idempotency key reproducible and key-sensitive; generated ids differ; attempt recorded;
   * run_space_inputs_id changes exactly when a referenced file's content changes.
 Bound: 3 pipelines x run spaces of 1..3 runs (4 thorough) x file/directory trace output x failing index; 6 cosmetic rewrites and
-6 single-point mutations of the run_space block; 3 launch-id modes; 3 file edits."""
+6 single-point mutations of the run_space block, 10 string values differing only in line-boundary characters; 3 launch-id modes; 3 file edits."""
 import contextlib, io, json, sys, tempfile, logging, copy, shutil
 logging.disable(logging.CRITICAL)
 from pathlib import Path
@@ -230,6 +230,25 @@ else:
             fail("spec-id:unchanged-under-plan-mutation:inspect", mutation=name)
         if s1 is not None and i1 != s1["run_space_spec_id"]:
             fail("spec-id:inspect-differs-from-trace", mutation=name, inspect=i1, trace=s1["run_space_spec_id"])
+    # string values that differ only in a trailing newline or in a line-boundary character are different plans (the canonical
+    # form folds CR/CRLF into LF and nothing else): the ids of this family must be pairwise distinct, in inspect and trace alike
+    STRING_FAMILY = {"plain": "a.txt", "trailing-newline": "a.txt\\n", "inner-newline": "a\\n.txt", "form-feed": "a\\x0c.txt",
+                     "vertical-tab": "a\\x0b.txt", "file-separator": "a\\x1c.txt", "next-line": "a\\x85.txt",
+                     "line-separator": "a\\u2028.txt", "paragraph-separator": "a\\u2029.txt", "space": "a .txt"}
+    seen_trace, seen_insp = {}, {}
+    for name, leaf in STRING_FAMILY.items():
+        i1, s1, c1, e1 = spec_ids(BASE.replace("\"{dir}/a.txt\", \"{dir}/b.txt\"", "\"/nonexistent_dir_for_c09/" + leaf + "\", \"/nonexistent_dir_for_c09/b.txt\""))
+        distinct.add(("string-family", name))
+        if s1 is None or i1 is None:
+            continue
+        if s1 is not None and i1 != s1["run_space_spec_id"]:
+            fail("spec-id:inspect-differs-from-trace", string_value=name, inspect=i1, trace=s1["run_space_spec_id"])
+        if s1["run_space_spec_id"] in seen_trace:
+            fail("spec-id:different-string-values-share-one-id:trace", values=[seen_trace[s1["run_space_spec_id"]], name])
+        if i1 in seen_insp:
+            fail("spec-id:different-string-values-share-one-id:inspect", values=[seen_insp[i1], name])
+        seen_trace.setdefault(s1["run_space_spec_id"], name)
+        seen_insp.setdefault(i1, name)
 # nested placement (pipeline.run_space)
 NESTED = HEAD + "pipeline:\n  run_space:\n    blocks:\n      - mode: by_position\n        context:\n          factor: [2.0, 3.0]\n          path: [\"/nonexistent_dir_for_c09/a.txt\", \"/nonexistent_dir_for_c09/b.txt\"]\n" + nodes_yaml("source-multiply-sink").split("pipeline:\n", 1)[1]
 i2, s2, c2, e2 = spec_ids(NESTED)
@@ -304,7 +323,7 @@ else:
         fail("spec-id:changes-with-file-content")
 
 shutil.rmtree(root, ignore_errors=True)
-print(json.dumps({"bound": "3 pipelines x run spaces of 1..3 (thorough 4) runs x file/directory trace output x failing run index; 6 cosmetic rewrites, 6 plan mutations, nested placement; explicit/idempotent/generated launch ids; 3 source-file edits",
+print(json.dumps({"bound": "3 pipelines x run spaces of 1..3 (thorough 4) runs x file/directory trace output x failing run index; 6 cosmetic rewrites, 6 plan mutations, 10 string values differing only in line-boundary characters, nested placement; explicit/idempotent/generated launch ids; 3 source-file edits",
                   "evaluations": evaluations, "distinct_nontrivial": len(distinct),
                   "rule": "distinct = (pipeline, runs, output kind, failing index) or the named identity scenario; launches and standalone runs go through the real CLI",
                   "failures": failures[:40], "samples": samples}, default=str))
